@@ -9,10 +9,12 @@ All statements are for every dimension and every pair of points (lists of any le
 Exact real arithmetic: floating-point rounding is outside the theorems (the correspondence absorbs
 it in a computed allowance).
 
-Unproved part: positive semi-definiteness for `0 < q ≤ p ≤ 2` (`C05_psd`, Schoenberg); only the
-two-point case is proved (`psd_two_points_partial`).
+Positive semi-definiteness for `0 < q ≤ p ≤ 2` (`C05_psd`, Schoenberg's theorem) is proved in full
+(`C05_psd_holds`; `Lemmas/PsdKernel.lean`, `Lemmas/PsdBernstein.lean`, `Lemmas/PsdLpq.lean`,
+`Lemmas/KernelPsd.lean`), with the L2, product and memory-light kernels as corollaries.
 -/
 import Xrfmv.Lemmas.Kernel
+import Xrfmv.Lemmas.KernelPsd
 
 namespace Xrfmv.Props.C05
 open Xrfmv Xrfmv.Kernel
@@ -220,20 +222,61 @@ theorem alias_spec (a : RfmArgs ℝ) :
     specOfAlias "gaussian" a = none ∧ Gen.Alias.unknownRaisesValueError = true := by
   refine ⟨?_, ?_, ?_, ?_, ?_, ?_, ?_, ?_, ?_, ?_⟩ <;> rfl
 
-/-! ### positive semi-definiteness (unproved) -/
+/-! ### positive semi-definiteness -/
 
-/-- **C05 PSD — full statement, NOT proved.** For `0 < q ≤ p ≤ 2`, `L > 0`, any transform, any
-dimension `d` and any finite point set, the Gram matrix of the Lpq kernel (hence of the L2, light and
-product kernels, by `laplace_is_lpq_2q`, `light_eq_l2`, `product_is_lpq_pp`) is positive
-semi-definite.  (Schoenberg: `‖·‖_p^q` is conditionally negative definite for `0 < q ≤ p ≤ 2`.)
-The correspondence checks `λ_min ≥ −allowance` numerically instead. -/
+/-- **C05 PSD — full statement.** For `0 < q ≤ p ≤ 2`, `L > 0`, any transform, any dimension `d` and
+any finite point set, the Gram matrix of the Lpq kernel (hence of the L2, light and product kernels:
+`psd_laplace`, `psd_product`, `psd_light*` below) is positive semi-definite. -/
 def C05_psd : Prop :=
   ∀ (p q L : ℝ), 0 < q → q ≤ p → p ≤ 2 → 0 < L →
   ∀ (T : Transform ℝ) (d n : ℕ) (xs : Fin n → Fin d → ℝ) (w : Fin n → ℝ),
     0 ≤ ∑ i, ∑ j, w i * w j * entry (.lpq p q L) T (List.ofFn (xs i)) (List.ofFn (xs j))
 
-/-- The part of `C05_psd` that follows from symmetry, unit diagonal and range alone: every `2 × 2`
-Gram matrix (two points) is positive semi-definite — for every kernel, not only `q ≤ p ≤ 2`. -/
+/-- **`C05_psd` holds** (Schoenberg).  `(s−t)²` is conditionally negative definite; such kernels are
+closed under `ψ ↦ ψ^a`, `0 < a ≤ 1` (Bernstein representation of `r^a` as a mixture of `1 − e^{−tr}`),
+under sums over coordinates, and `exp(−ψ)` of one is positive semi-definite (power series and the
+Schur product theorem). -/
+theorem C05_psd_holds : C05_psd :=
+  fun _ _ _ hq hqp hp2 hL T _ _ xs w => Kernel.lpq_gram_psd hq hqp hp2 hL T xs w
+
+/-- L2 Laplace kernel (`LaplaceKernel`: `'l2'`, `'l2_high_dim'`, …), exponent `0 < q ≤ 2`. -/
+theorem psd_laplace {q L : ℝ} (hq : 0 < q) (hq2 : q ≤ 2) (hL : 0 < L) (T : Transform ℝ) {d n : ℕ}
+    (xs : Fin n → Fin d → ℝ) (w : Fin n → ℝ) :
+    0 ≤ ∑ i, ∑ j, w i * w j * entry (.laplace q L) T (List.ofFn (xs i)) (List.ofFn (xs j)) := by
+  simpa only [laplace_is_lpq_2q] using C05_psd_holds 2 q L hq hq2 le_rfl hL T d n xs w
+
+/-- Product Laplace kernel (`'l1'`, `'product_laplace'`), exponent `0 < q ≤ 2`. -/
+theorem psd_product {q L : ℝ} (hq : 0 < q) (hq2 : q ≤ 2) (hL : 0 < L) (T : Transform ℝ) {d n : ℕ}
+    (xs : Fin n → Fin d → ℝ) (w : Fin n → ℝ) :
+    0 ≤ ∑ i, ∑ j, w i * w j * entry (.product q L) T (List.ofFn (xs i)) (List.ofFn (xs j)) := by
+  simpa only [product_is_lpq_pp hq] using C05_psd_holds q q L hq le_rfl hq2 hL T d n xs w
+
+/-- Memory-light L2 kernel given `M = T·T` with `T` symmetric (what the fit hands it), -/
+theorem psd_light {q L : ℝ} (hq : 0 < q) (hq2 : q ≤ 2) (hL : 0 < L) {d n : ℕ}
+    (T : Matrix (Fin d) (Fin d) ℝ) (hT : T.IsSymm) (xs : Fin n → Fin d → ℝ) (w : Fin n → ℝ) :
+    0 ≤ ∑ i, ∑ j, w i * w j *
+      entry (.light q L) (.full (colsOf (T * T))) (List.ofFn (xs i)) (List.ofFn (xs j)) := by
+  simpa only [light_eq_l2 T hT] using psd_laplace hq hq2 hL (.full (colsOf T)) xs w
+
+/-- a diagonal `M = v²`, -/
+theorem psd_light_diag {q L : ℝ} (hq : 0 < q) (hq2 : q ≤ 2) (hL : 0 < L) {d n : ℕ}
+    (v : Fin d → ℝ) (xs : Fin n → Fin d → ℝ) (w : Fin n → ℝ) :
+    0 ≤ ∑ i, ∑ j, w i * w j *
+      entry (.light q L) (.diag (List.ofFn fun i => v i * v i)) (List.ofFn (xs i)) (List.ofFn (xs j)) := by
+  simpa only [light_eq_l2_diag] using psd_laplace hq hq2 hL (.diag (List.ofFn v)) xs w
+
+/-- or no `M`. -/
+theorem psd_light_none {q L : ℝ} (hq : 0 < q) (hq2 : q ≤ 2) (hL : 0 < L) {d n : ℕ}
+    (xs : Fin n → Fin d → ℝ) (w : Fin n → ℝ) :
+    0 ≤ ∑ i, ∑ j, w i * w j * entry (.light q L) .none (List.ofFn (xs i)) (List.ofFn (xs j)) := by
+  simpa only [light_eq_l2_none] using psd_laplace hq hq2 hL .none xs w
+
+/-- Non-vacuity / sharpness: the hypotheses are met by the defaults (`p = 2`, `q = 1`), and the
+statement is about a kernel that is not constant (two distinct points give an entry below 1). -/
+example : (0 : ℝ) < 1 ∧ (1 : ℝ) ≤ 2 ∧ (2 : ℝ) ≤ 2 ∧ (0 : ℝ) < 5 := by norm_num
+
+/-- What follows from symmetry, unit diagonal and range alone: every `2 × 2` Gram matrix (two points) is
+positive semi-definite — for every kernel (the sum-power kernel included), not only `q ≤ p ≤ 2`. -/
 theorem psd_two_points_partial (K : Spec ℝ) (hK : Valid K) (T : Transform ℝ) (x z : List ℝ)
     (hM : K.isLight = true → dot (applyT T x) z = dot (applyT T z) x)
     (hne : K.isSumPower = true → applyT T x ≠ [] ∧ applyT T z ≠ []) (a b : ℝ) :
